@@ -41,6 +41,9 @@ def run_case(chk, strategy, storage_kind, d, m, n, subset_kind):
     names = NAMES[:d]
     # globally unique values per (row, feature): the source row of every imputed value can be read off
     rows = [{f: Q(100 * (r + 1) + 10 * i + 1, 7) for i, f in enumerate(names)} for r in range(m)]
+    if rng.random() < 0.5:
+        # a stored observation may hold a falsy value (0, 0.0, False): it is a genuine background value like any other
+        rows[rng.randrange(m)][names[rng.randrange(d)]] = rng.choice([0, 0.0, False, Q(0)])
     x = {f: Q(-(10 * i + 3), 5) for i, f in enumerate(names)}
     x["extra"] = Q(77)
     k = rng.randint(0, d)
@@ -64,7 +67,8 @@ def run_case(chk, strategy, storage_kind, d, m, n, subset_kind):
                 rows = rows[-1:]
             values = {f: Q(1000 + i) for i, f in enumerate(names)}
             values[names[rng.randrange(d)]] = rng.choice([0, 0.0, False, Q(0)])   # falsy defaults are legitimate values
-            imp = MarginalImputer(model, strategy, st) if strategy != "default" else DefaultImputer(model, dict(values))
+            # the strategy name as a run-time built string (equal to, but not the same object as, the literal in the library)
+            imp = MarginalImputer(model, "".join(list(strategy)), st) if strategy != "default" else DefaultImputer(model, dict(values))
             snap = (copy.deepcopy(x), copy.deepcopy(subset), copy.deepcopy(list(st.get_data()[0])), copy.deepcopy(list(st.get_data()[1])))
             nlog = len(draws.log)
             try:
@@ -119,6 +123,7 @@ def run_case(chk, strategy, storage_kind, d, m, n, subset_kind):
             return desc, f"row index drawn from range {sorted(set(rg for rg, _ in drawn))} with {mrows} stored observations", None
     phase1_inputs = [dict(z) for z in seen_inputs]
     phase1_rows = [dict(r) for r in rows]
+    history = [dict(r) for r in rows]
     # ---- phase 2 (multi-step): the storage keeps changing between imputations; every imputed value must come from an observation
     #      that is stored NOW (not from a snapshot taken earlier)
     if strategy != "default":
@@ -129,7 +134,15 @@ def run_case(chk, strategy, storage_kind, d, m, n, subset_kind):
                     new_rows = [{f: Q(100000 * (rnd + 1) + 100 * (r + 1) + 10 * i + 3, 11) for i, f in enumerate(names)} for r in range(mrows)]
                     for i, r in enumerate(new_rows):
                         st.update(dict(r), 500 + i)
+                    history += [dict(r) for r in new_rows]
                     current = [dict(r) for r in st.get_data()[0]]
+                    # what window storages hold is determined by the update history, independently of what get_data() reports
+                    if storage_kind == "interval":
+                        current = history[-mrows:]
+                    elif storage_kind == "sequence":
+                        current = history[-1:]
+                    elif storage_kind == "batch":
+                        current = list(history)
                     seen_inputs.clear()
                     S2 = list(names) if not S else list(S)
                     try:
